@@ -24,9 +24,15 @@ RULE = ('cases = (2/3) flat machines of the C01 generator x queued in {False, Tr
         '(event payload, callback): condition values, triggers awaited from callbacks of queued machines (processed '
         'later, FIFO), one raising callback (Exception/BaseException) in 1/4 of the cases; (1/3) hierarchical machines of '
         'the C03 generator (depth <= 3, parallel regions) on HierarchicalAsyncMachine, histories of 1-4 calls incl. '
-        'may_trigger.  Every callback and condition is independently a plain function, a coroutine function, or a '
-        'coroutine that suspends once or twice (asyncio.sleep(0)); a stage containing a raising callback has no '
-        'suspending callback.  Non-trivial: some stage has >= 2 callbacks of which >= 1 suspends (Ends interleave), or '
+        'may_trigger.  Every callback, condition and unless-check is independently a plain function, a coroutine function, '
+        'a coroutine that suspends once or twice (asyncio.sleep(0)), or a PLAIN function returning a non-coroutine '
+        'awaitable: an already resolved asyncio.Future, a pending Future resolved through loop.call_soon, an asyncio.Task '
+        '(its coroutine suspending 0/1 times), an object with __await__ (yielding 0/2 times) - value/exception always from '
+        'env; a stage containing a raising callback has no suspending callback.  On every implementation trace the stage '
+        'discipline is checked with stages = registration lists (no callback starts while a callback of another list - e.g. '
+        'the exit/enter/on_final list of another state - is still running; nothing is left running); extra stream: '
+        'hierarchical machines (depth <= 3, parallel) with <= 1 callback per list, every callback suspending cb % 3 times '
+        'and logging on COMPLETION, compared exactly with the synchronous Hsm model.  Non-trivial: some stage has >= 2 callbacks of which >= 1 suspends (Ends interleave), or '
         'a failed check is followed by further checks of the same candidate (the licensed difference), or >= 2 events '
         'were processed in one call; distinct by case hash.')
 ASSUMPTIONS = ['asyncio: FIFO ready queue, gather() schedules its arguments in order, sleep(0) re-queues behind ready tasks '
@@ -167,7 +173,7 @@ def gen_flat(rng, i, nested_unqueued=False):
         for c in range(1, ncb + 1):
             if rng.random() < 0.25:
                 env['bykey'][_key(p, c)] = (val(c), None, [])
-    flavour = {str(c): rng.choice([0, 0, 1, 1, 2, 2, 3]) for c in range(1, ncb + 1)}
+    flavour = {str(c): rng.choice(FLAVOURS) for c in range(1, ncb + 1)}
     susp_key = {}
     # triggers awaited from callbacks (queued machines only; never from a check, never from a plain function)
     if (mode != 0 or nested_unqueued) and ncb:
@@ -177,7 +183,7 @@ def gen_flat(rng, i, nested_unqueued=False):
                     c = rng.randint(1, ncb)
                     if c in checks:
                         continue
-                    if flavour[str(c)] == 0:
+                    if flavour[str(c)] not in ASYNC_DEF:
                         flavour[str(c)] = 1
                     cur_model = None
                     acts = []
@@ -191,7 +197,7 @@ def gen_flat(rng, i, nested_unqueued=False):
     # a few per-invocation suspension counts
     for p in payloads:
         for c in range(1, ncb + 1):
-            if flavour[str(c)] != 0 and rng.random() < 0.1:
+            if flavour[str(c)] in ASYNC_DEF and rng.random() < 0.1:
                 susp_key[_key(p, c)] = rng.randint(0, 3)
     if nested_unqueued:
         # queued=False: the awaited trigger is processed inside the callback.  Envelope: the awaiting callback is
@@ -209,7 +215,7 @@ def gen_flat(rng, i, nested_unqueued=False):
             lst = lists[own[c][0]][1]
             last = lst[-1]
             for d in lst:
-                if flavour[str(d)] > 1:
+                if susp_of_flavour(flavour[str(d)]) > 0:
                     flavour[str(d)] = 1
                 susp_key[_key(p, d)] = 0
             flavour[str(last)] = 1
@@ -225,13 +231,13 @@ def gen_flat(rng, i, nested_unqueued=False):
             if acts:
                 p, c = (int(v) for v in key.split(','))
                 for d in lists[own[c][0]][1]:
-                    if flavour[str(d)] > 1:
+                    if susp_of_flavour(flavour[str(d)]) > 0:
                         flavour[str(d)] = 1
         for key in list(susp_key):
             p, c = (int(v) for v in key.split(','))
-            if flavour[str(c)] <= 1:
+            if susp_of_flavour(flavour[str(c)]) == 0:
                 susp_key[key] = 0
-        return case
+        return normalise_susp(case)
     # one raising callback
     if ncb and rng.random() < 0.25:
         p = rng.choice(payloads)
@@ -243,12 +249,12 @@ def gen_flat(rng, i, nested_unqueued=False):
         if c in own:
             lst = stage_lists(case)[own[c][0]][1]
             for d in lst:                      # envelope: no suspending callback in the stage of a raising one
-                if flavour[str(d)] > 1:
+                if susp_of_flavour(flavour[str(d)]) > 0:
                     flavour[str(d)] = 1
                 susp_key[_key(p, d)] = 0
     if mode == 2:
         fix_per_model(case)
-    return case
+    return normalise_susp(case)
 
 
 def fix_per_model(case):
@@ -269,7 +275,7 @@ def gen_hsm(rng, i):
     lists = stage_lists(case)
     for _, l in lists:
         ncb = max([ncb] + l)
-    flavour = {str(c): rng.choice([0, 0, 1, 1, 2, 2, 3]) for c in range(1, ncb + 1)}
+    flavour = {str(c): rng.choice(FLAVOURS) for c in range(1, ncb + 1)}
     case['flavour'] = flavour
     if lists and rng.random() < 0.2:
         k, l = rng.choice(lists)
@@ -279,7 +285,7 @@ def gen_hsm(rng, i):
             case['env']['bycb'][str(c)] = (old[0], (3 + rng.randrange(2), 1 + rng.randrange(3)), [])
             case['raise'] = [0, c]
             for d in l:
-                if flavour[str(d)] > 1:
+                if susp_of_flavour(flavour[str(d)]) > 0:
                     flavour[str(d)] = 1
     return case
 
@@ -304,8 +310,30 @@ def enc_aenv(env):
             [[int(c), flat.enc_reply(r)] for c, r in sorted(env.get('bycb', {}).items(), key=lambda kv: int(kv[0]))]]
 
 
+# how a recorder is registered (the value it yields always comes from env):
+#  0 plain function                       1 async def                      2/3 async def awaiting sleep(0) once / twice
+#  4 plain function returning an already resolved asyncio.Future           (awaiting it does not suspend)
+#  5 plain function returning a pending Future resolved by loop.call_soon  (two trips through the ready queue)
+#  6/7 plain function returning an asyncio.Task whose coroutine suspends 0 / 1 times (2 / 3 trips)
+#  8/9 plain function returning an object with __await__ that yields 0 / 2 times
+SUSP_OF_FLAVOUR = {0: 0, 1: 0, 2: 1, 3: 2, 4: 0, 5: 2, 6: 2, 7: 3, 8: 0, 9: 2}
+FLAVOURS = [0, 0, 1, 1, 2, 2, 3, 4, 5, 6, 7, 8, 9]
+ASYNC_DEF = (1, 2, 3)
+
+
 def susp_of_flavour(f):
-    return max(0, f - 1)
+    return SUSP_OF_FLAVOUR[f]
+
+
+def normalise_susp(case):
+    """per-invocation suspension counts exist for `async def` recorders only"""
+    sk = case.get('susp_key', {})
+    for key in list(sk):
+        c = key.split(',')[1]
+        f = case['flavour'].get(c, 0)
+        if f not in ASYNC_DEF:
+            sk[key] = susp_of_flavour(f)
+    return case
 
 
 def enc(case):
@@ -345,10 +373,11 @@ class AWorld(flat.World):
         return (env.get('default', True), None, [])
 
     def susp(self, cb, payload):
+        f = self.case['flavour'].get(str(cb), 0)
         k = self.case.get('susp_key', {}).get(_key(payload if payload is not None else 0, cb))
-        if k is not None:
+        if k is not None and f in ASYNC_DEF:
             return k
-        return susp_of_flavour(self.case['flavour'].get(str(cb), 0))
+        return susp_of_flavour(f)
 
     def recorder(self, slot, cb, model_of_call=None):
         world = self
@@ -378,22 +407,75 @@ class AWorld(flat.World):
         if flavour == 0:
             def rec(*args, **kwargs):
                 ret, exc, acts, payload = start(args, kwargs)
-                if not world.asynchronous:
-                    for a in acts:
-                        world.do_action(a, payload)
-                if exc is not None:
-                    raise exc
+                try:
+                    if not world.asynchronous:
+                        for a in acts:
+                            world.do_action(a, payload)
+                    if exc is not None:
+                        raise exc
+                except BaseException:
+                    world.events.append([2, SLOT[slot], cb, payload])      # left by an exception (not compared)
+                    raise
                 world.events.append([1, SLOT[slot], cb, payload])
                 return ret
+        elif flavour >= 4:
+            def rec(*args, **kwargs):
+                # a PLAIN function that hands back a non-coroutine awaitable; End is logged when the awaitable
+                # completes (the machine must await it and honour its value / exception)
+                ret, exc, acts, payload = start(args, kwargs)
+                loop = asyncio.get_running_loop()
+
+                def log_end(*_):
+                    world.events.append([1 if exc is None else 2, SLOT[slot], cb, payload])
+                if flavour == 4:
+                    fut = loop.create_future()
+                    log_end()
+                    if exc is not None:
+                        fut.set_exception(exc)
+                    else:
+                        fut.set_result(ret)
+                    return fut
+                if flavour == 5:
+                    fut = loop.create_future()
+                    fut.add_done_callback(log_end)
+                    if exc is not None:
+                        loop.call_soon(fut.set_exception, exc)
+                    else:
+                        loop.call_soon(fut.set_result, ret)
+                    return fut
+                if flavour in (6, 7):
+                    async def inner():
+                        for _ in range(flavour - 6):
+                            await asyncio.sleep(0)
+                        if exc is not None:
+                            raise exc
+                        return ret
+                    task = asyncio.ensure_future(inner())
+                    task.add_done_callback(log_end)
+                    return task
+
+                class Awaitable(object):
+                    def __await__(self_):
+                        for _ in range(0 if flavour == 8 else 2):
+                            yield from asyncio.sleep(0).__await__()
+                        log_end()
+                        if exc is not None:
+                            raise exc
+                        return ret
+                return Awaitable()
         else:
             async def rec(*args, **kwargs):
                 ret, exc, acts, payload = start(args, kwargs)
-                for a in acts:
-                    await world.do_action(a, payload)
-                for _ in range(world.susp(cb, payload)):
-                    await asyncio.sleep(0)
-                if exc is not None:
-                    raise exc
+                try:
+                    for a in acts:
+                        await world.do_action(a, payload)
+                    for _ in range(world.susp(cb, payload)):
+                        await asyncio.sleep(0)
+                    if exc is not None:
+                        raise exc
+                except BaseException:
+                    world.events.append([2, SLOT[slot], cb, payload])
+                    raise
                 world.events.append([1, SLOT[slot], cb, payload])
                 return ret
         rec.__name__ = '%s_%d' % (slot, cb)
@@ -410,7 +492,11 @@ def _blocks(events, payload_id, own):
             by[p] = []
             order.append(p)
         by[p].append(ev[:-1])
-    return [[payload_id.get(p, 999), p if p is not None else 999, by[p], stage_view(by[p], own)] for p in order]
+    out = []
+    for p in order:
+        evs = [ev for ev in by[p] if ev[0] != 2]
+        out.append([payload_id.get(p, 999), p if p is not None else 999, evs, stage_view(evs, own), by[p]])
+    return out
 
 
 def run_flat(case, asynchronous):
@@ -701,6 +787,28 @@ def _rle(seq):
     return out
 
 
+def stage_discipline(events, own):
+    """C07_awaited / C07_completed on an implementation trace, stages identified by the registration list a callback
+    belongs to: when a callback starts, every callback of ANOTHER list that was started before has completed (the
+    exit callbacks of a child state complete before those of its parent start, likewise enter / on_final of
+    different states, even when they really suspend); at the end nothing is left open"""
+    open_cbs = {}
+    for ev in events:
+        cb = ev[2]
+        if ev[0] == 0:
+            li = own.get(cb, (None,))[0]
+            for ocb, oli in open_cbs.items():
+                if oli != li:
+                    return 'callback %d (slot %s) started while callback %d of another stage had not completed' % (
+                        cb, SLOTS[ev[1]], ocb)
+            open_cbs[cb] = li
+        else:                       # completed, or left by an exception (marker 2)
+            open_cbs.pop(cb, None)
+    if open_cbs:
+        return 'callbacks %r never completed before the trigger returned' % sorted(open_cbs)
+    return None
+
+
 def oracle_raw(case, obs):
     """(b) the asynchronous implementation against the synchronous implementation up to stage_view; evaluated inside
     canon (the flag it yields is compared with the constant flag on the model side)"""
@@ -708,6 +816,18 @@ def oracle_raw(case, obs):
         return None
     if obs.get('leftovers'):
         return 'tasks still pending after the last awaited trigger returned'
+    own = owner_map(case)
+    if case['tag'] == 1:
+        for idx, sa in enumerate(obs['a']):
+            msg = stage_discipline(sa[0], own)
+            if msg:
+                return 'call %d: %s' % (idx, msg)
+    else:
+        for idx, sa in enumerate(obs['a']):
+            for b in sa[0]:
+                msg = stage_discipline(b[4], own)
+                if msg:
+                    return 'call %d: %s' % (idx, msg)
     if not sync_comparable(case):
         return None
     if case['tag'] == 1:
@@ -789,7 +909,10 @@ def stats(case, obs, dist):
     fl = case['flavour'].values()
     inc('callbacks_plain', sum(1 for f in fl if f == 0))
     inc('callbacks_coroutine', sum(1 for f in fl if f == 1))
-    inc('callbacks_suspending', sum(1 for f in fl if f > 1))
+    inc('callbacks_suspending', sum(1 for f in fl if f in (2, 3)))
+    inc('callbacks_plain_returning_future', sum(1 for f in fl if f in (4, 5)))
+    inc('callbacks_plain_returning_task', sum(1 for f in fl if f in (6, 7)))
+    inc('callbacks_plain_returning___await__object', sum(1 for f in fl if f in (8, 9)))
     if not isinstance(obs, list) or obs[0] != 1:
         inc('undecodable')
         return
@@ -952,6 +1075,18 @@ def extra_checks(tier, seed):
                 dict(cases=n, nested_triggers_awaited=nested_calls, failing=None if bad is None else bad[2]),
                 None if bad is None else dict(kind='oracle', case=bad[0], impl_obs=bad[1], failing_clause=bad[2],
                                               note='queued=False, trigger awaited from the last callback of a stage')))
+    # (1b) hierarchical completion order: every callback suspends (cb % 3) times and logs itself only when it
+    # completes; with at most one callback per list the synchronous hierarchical model predicts the exact completion
+    # order (exit of a child completed before the exit of its parent starts, enter / on_final likewise), results, states
+    n2 = 400 if tier == 'quick' else 6000
+    hc, hbad = hsm.async_stream('C07-completion', seed, n2, max_depth=3, p_parallel=0.4, hist_len=None)
+    okh = not hbad
+    out.append(('hierarchical_completion_order_vs_Hsm_model', okh,
+                dict(cases=len(hc), disagreements=len(hbad)),
+                None if okh else dict(kind='counterexample', case=hbad[0][0], model_obs=hbad[0][1], impl_obs=hbad[0][2],
+                                      first_difference='completion order / result / state of HierarchicalAsyncMachine '
+                                                       'with suspending callbacks differs from the synchronous Hsm model',
+                                      theorem='corr_C07 (hierarchical completion order)')))
     # (2) regression of the fixed KF-C07-1 (D30) and the witness of the refuted statement KF-C07-2, replayed on /repo
     k1 = _probe_kf1()
     ok1 = k1[0] is False and k1[1] is False
